@@ -403,9 +403,11 @@ func (w *Reconciler) syncCreateTasks(
 		return rj, tasks, errors.Wrapf(err, "cannot compute completion status")
 	}
 
-	// If already complete, don't need to create any more tasks.
+	// If already complete, don't need to create any more tasks. Tasks that were
+	// created previously but could not be recorded still have to be adopted,
+	// otherwise they would never be killed or cleaned up.
 	if completion.Complete {
-		return rj, tasks, nil
+		return w.syncAdoptTasks(rj, tasks)
 	}
 
 	// Compute indexes that need to be created.
